@@ -89,12 +89,22 @@ func c13Check(c *fw.Ctx, layout geom.Layout, pts []ipt, via int, class string) {
 		}
 		return float64(v)
 	}
+	// one input in six (with extra ordinates) has NaN in some of them - "not measured" -:
+	// what the hull does with duplicates is its business, the caller's array is not
+	nanExtras := stride > 2 && c.R.Chance(1, 6)
 	for i, p := range pts {
 		flat = append(flat, nz(p.x), nz(p.y))
 		for k := 2; k < stride; k++ {
 			// unique ids in the extra ordinates make provenance observable
-			flat = append(flat, float64(1000*(k-1)+i))
+			v := float64(1000*(k-1) + i)
+			if nanExtras && c.R.Chance(1, 3) {
+				v = math.NaN()
+			}
+			flat = append(flat, v)
 		}
+	}
+	if nanExtras {
+		c.Count("inputs_with_nan_in_extra_ordinates")
 	}
 	// every other input sits in a buffer the caller keeps and refills for the next
 	// input: a hull that is built on the caller's memory instead of a copy changes
